@@ -138,5 +138,60 @@ def pem_case():
                  "truncation": "whole file or cut after any line, last newline optional"})
 
 
+def library_loader_case():
+    """where the key material is handed to the cryptography library (RSA and ECDSA, traditional PEM bodies): the bytes
+    are passed on unchanged, with the library's own key validation left switched on, and whatever the library objects
+    to (ValueError / TypeError / UnsupportedAlgorithm) comes out as SSHException"""
+    def fn(ctx):
+        from cryptography.exceptions import UnsupportedAlgorithm
+        from paramiko.ssh_exception import SSHException
+        import paramiko.rsakey as RK
+        import paramiko.ecdsakey as EK
+        which = ctx.choice("key-class", ["RSAKey", "ECDSAKey"])
+        data = ctx.bytes("der", 3)
+        outcome = ctx.choice("library", ["loads", "ValueError", "TypeError", "UnsupportedAlgorithm"])
+        calls = []
+
+        def load_der_private_key(d, password=None, backend=None, **kw):
+            calls.append((d, password, kw))
+            if outcome == "loads":
+                raise _Loaded()
+            raise {"ValueError": ValueError, "TypeError": TypeError, "UnsupportedAlgorithm": UnsupportedAlgorithm}[outcome]("bad key")
+        mod = RK if which == "RSAKey" else EK
+        ser = type("Ser", (), {"load_der_private_key": staticmethod(load_der_private_key)})
+        key = (RK.RSAKey if which == "RSAKey" else EK.ECDSAKey).__new__(RK.RSAKey if which == "RSAKey" else EK.ECDSAKey)
+        got = None
+        from sx.stubs import patched
+        with patched([(mod, "serialization", type("S2", (), {"load_der_private_key": staticmethod(load_der_private_key),
+                                                             "__getattr__": None})), ]):
+            # only the loader is replaced; other names of the serialization module are not used on this path
+            try:
+                key._decode_key((key._PRIVATE_KEY_FORMAT_ORIGINAL, data))
+            except _Loaded:
+                got = "loaded"
+            except SSHException:
+                got = "SSHException"
+            except Exception as e:      # noqa
+                ctx.prove(False, "escapes:" + exc_key(e)[4:])
+                return
+        ctx.prove(len(calls) == 1 and P_beq(calls[0][0], data), "library-gets-the-key-bytes-unchanged")
+        ctx.prove(len(calls) == 1 and calls[0][1] is None and not any(bool(v) for k, v in calls[0][2].items() if "unsafe" in k or "skip" in k),
+                  "library-validation-is-not-switched-off")
+        ctx.prove(got == ("loaded" if outcome == "loads" else "SSHException"), "library-refusal=>SSHException")
+    return Case("library-loaders", fn, ["library-gets-the-key-bytes-unchanged", "library-validation-is-not-switched-off",
+                                        "library-refusal=>SSHException"],
+                {"key classes": ["RSAKey", "ECDSAKey"], "DER body": "3 symbolic bytes", "library outcome": "loads or one of 3 exception classes"})
+
+
+class _Loaded(Exception):
+    pass
+
+
+def P_beq(a, b):
+    from props import _pkt as P
+    r = P.beq(a, b)
+    return bool(r) if isinstance(r, bool) else r
+
+
 def cases(tier):
-    return [openssh_case(3 if tier == "quick" else 6), pem_case()]
+    return [openssh_case(3 if tier == "quick" else 6), pem_case(), library_loader_case()]
